@@ -16,7 +16,9 @@ SPEC = os.path.join(ROOT, "spec")
 HARNESS = os.path.join(ROOT, "harness")
 WORK = os.path.join(ROOT, "work")
 BIN = os.path.join(HARNESS, "target", "debug")
-SCRATCH = os.environ.get("VERIF_SCRATCH", "/dev/shm/verif-scratch")
+# per-process scratch area (tmpfs): concurrent checks never share fixed sub-directory names
+SCRATCH_BASE = os.environ.get("VERIF_SCRATCH", "/dev/shm/verif-scratch")
+SCRATCH = os.path.join(SCRATCH_BASE, f"run-{os.getpid()}")
 TLA_JAR = "/opt/veriftools/tla/tla2tools.jar:/opt/veriftools/tla/CommunityModules-deps.jar"
 
 
@@ -37,10 +39,13 @@ class Ctx:
         self.log_lines = []
         os.makedirs(WORK, exist_ok=True)
         os.makedirs(SCRATCH, exist_ok=True)
-        try:
-            os.chmod(SCRATCH, 0o1777)
-        except OSError:
-            pass
+        for d in (SCRATCH_BASE, SCRATCH):
+            try:
+                os.chmod(d, 0o1777)
+            except OSError:
+                pass
+        import atexit
+        atexit.register(lambda: subprocess.run(["rm", "-rf", SCRATCH]))
 
     def note(self, msg):
         print(f"[{self.id}] {msg}", flush=True)
